@@ -15,5 +15,6 @@ CONSTANTS
   MaxDeliver = 1
   FailPoints = {0}
   AllowEarly = FALSE
+  AllowPkUpd = FALSE
 INVARIANTS Dump
 CHECK_DEADLOCK FALSE
